@@ -212,6 +212,59 @@ func stripIface(v ssa.Value) ssa.Value {
 	}
 }
 
+// handlerEmits: a log handler that reports success has appended/assigned its event to b.Events.
+func handlerEmits(c *core.Ctx, rule, label string, cl *ssa.Function) {
+	sx := core.NewSymx()
+	isEmit := func(i ssa.Instruction) bool {
+		st, ok := i.(*ssa.Store)
+		return ok && strings.HasSuffix(sx.Of(st.Addr).String(), ".Events")
+	}
+	f := (&core.Walk{Stop: isEmit, Target: func(i ssa.Instruction) bool {
+		r, ok := i.(*ssa.Return)
+		return ok && len(r.Results) == 1 && isNilConst(r.Results[0])
+	}}).From(core.Entry(cl), nil)
+	if f != nil {
+		c.Violate(rule, label+"#emits-or-fails", f.Instr.Pos(), "the handler returns nil (log handled) on a path that did not store an event into b.Events: the block is recorded without the event and never revisited ("+core.PathStr(f)+")")
+	} else {
+		c.Hold(rule, label+"#emits-or-fails", "every successful return of the handler has stored its event; failures return an error (the downloader retries)")
+	}
+}
+
+func c16Handlers(c *core.Ctx) {
+	const rule = "C16-handlers"
+	pp := c.MustFn(rule, "lastgersync", "downloaderPP", "buildAppender")
+	if pp == nil {
+		return
+	}
+	sx := core.NewSymx()
+	n := 0
+	core.Instrs(pp, func(i ssa.Instruction) {
+		mu, ok := i.(*ssa.MapUpdate)
+		if !ok {
+			return
+		}
+		if mc, ok := mu.Value.(*ssa.MakeClosure); ok {
+			n++
+			handlerEmits(c, rule, "lastgersync.(*downloaderPP).buildAppender["+strings.TrimPrefix(sx.Of(mu.Key).String(), "lastgersync.")+"]", mc.Fn.(*ssa.Function))
+		}
+	})
+	if n == 0 {
+		c.Undecide(rule, "lastgersync.(*downloaderPP).buildAppender#handlers", pp.Pos(), "no handlers registered")
+	}
+	// FEP: every candidate GER is looked up on L2 (no early exit from the scan)
+	fep := c.MustFn(rule, "lastgersync", "downloaderFEP", "populateGreatestInjectedGER")
+	if fep != nil {
+		var done []core.IfEdge
+		for _, b := range fep.Blocks {
+			if iff, ok := b.Instrs[len(b.Instrs)-1].(*ssa.If); ok && sx.Of(iff.Cond).String() == "((loop{const(-1)} + const(1)) < len(gerInfos))" {
+				done = append(done, core.IfEdge{B: b, Succ: 1, If: iff})
+			}
+		}
+		f := core.ReachableWithout(core.Entry(fep), done, func(i ssa.Instruction) bool { _, r := i.(*ssa.Return); return r })
+		c.Decide(len(done) == 1 && f == nil, rule, "lastgersync.(*downloaderFEP).populateGreatestInjectedGER#scans-all", fep.Pos(), "the scan over candidate GERs ends only when all of them were looked up (the greatest injected one wins)")
+	}
+}
+
 func c16Query(c *core.Ctx) {
 	const rule = "C16-query"
 	sx := core.NewSymx()
@@ -272,6 +325,13 @@ func init() {
 		Rules: []Rule{
 			{ID: "C16-cursor", Floor: 1, Run: c16Cursor, Text: "[CURSOR] lower bound of the PP fetch is the loop-carried cursor"},
 			{ID: "C16-store", Floor: 8, Run: c16Store, Text: "[PROV]+[DOM]+ABI: topic/parser agreement, handler field maps, delete-by-GER / insert dispatch on the tx"},
+			{ID: "C16-handlers", Floor: 3, Run: c16Handlers, Text: "[DOM] a handler that returns nil has emitted its event; the FEP scan has no early exit"},
+			{ID: "C16-tx", Floor: 4, Run: func(c *core.Ctx) {
+				if fn := c.MustFn("C16-tx", "lastgersync", "processor", "ProcessBlock"); fn != nil {
+					ruleTxErr(c, "C16-tx", fn)
+					ruleTxThrough(c, "C16-tx", fn)
+				}
+			}, Text: "[TX]+[ERR] (shared with C07) GER insert/delete go through the block's tx and their failures abort the block"},
 			{ID: "C16-query", Floor: 3, Run: c16Query, Text: "SQL tokens: min index >= $1; façade pass-through; PK(block_num)"},
 		},
 	})
